@@ -38,10 +38,12 @@ class _Rec(object):
 class ThreadSched(object):
     is_async = False
 
-    def __init__(self):
+    def __init__(self, raw=False):
         self.th = {}
         self.ctl = threading.Semaphore(0)
         self.abort = False
+        self.raw = raw        # start the threads with _thread.start_new_thread: the `threading` module does not know them (they are not
+                              # counted by threading.active_count(), as threads created by C extensions or GUI toolkits are not)
 
     def spawn(self, name, fn):
         rec = _Rec()
@@ -49,7 +51,10 @@ class ThreadSched(object):
         self.th[name] = rec
 
         def body():
-            threading.current_thread().vname = name
+            if self.raw:
+                CUR.set(name)           # never threading.current_thread() here: it would register a dummy thread object
+            else:
+                threading.current_thread().vname = name
             rec.sem.acquire()
             try:
                 if not self.abort:
@@ -61,11 +66,15 @@ class ThreadSched(object):
             rec.done = True
             rec.at = 'done'
             self.ctl.release()
-        rec.thread = threading.Thread(target=body, daemon=True)
-        rec.thread.start()
+        if self.raw:
+            import _thread
+            _thread.start_new_thread(body, ())
+        else:
+            rec.thread = threading.Thread(target=body, daemon=True)
+            rec.thread.start()
 
     def boundary(self, label, runnable):
-        name = getattr(threading.current_thread(), 'vname', None)
+        name = current_name()
         if name is None or name not in self.th:
             return
         if self.abort:
@@ -92,7 +101,8 @@ class ThreadSched(object):
                 r.sem.release()
                 self.ctl.acquire()
         for r in self.th.values():
-            r.thread.join()
+            if r.thread is not None:
+                r.thread.join()
 
     # uniform async facade so that one driver serves both worlds
     async def aspawn(self, name, fn):
